@@ -291,3 +291,449 @@ Proof.
   - rewrite (rsum_ext _ (fun a => Mg * px a + Mh * py a + Mi * pz a)), rsum_lin3; [unfold Rdiv; ring|].
     intros a _. unfold px, py, pz. cbn [a_pos rot_atom]. destruct (a_pos a) as [[x y] z]. reflexivity.
 Qed.
+
+(* ------------------------------------------------------------------ displacements *)
+Lemma pd_shift cell (a b t : V3) :
+  position_distance Rops cell (v3add Rops a t) (v3add Rops b t) = position_distance Rops cell a b.
+Proof. unfold position_distance. rewrite v3sub_shift. reflexivity. Qed.
+Lemma pdist_shift pbc cell (a b t : V3) :
+  pdist Rops pbc cell (v3add Rops a t) (v3add Rops b t) = pdist Rops pbc cell a b.
+Proof. unfold pdist. rewrite pd_shift, v3sub_shift. reflexivity. Qed.
+Lemma pd_rot (M : M3) (a b : V3) :
+  position_distance Rops None (mat_vec Rops M a) (mat_vec Rops M b) = mat_vec Rops M (position_distance Rops None a b).
+Proof. unfold position_distance. apply mat_vec_sub. Qed.
+Lemma pdist_rot pbc (M : M3) (a b : V3) :
+  pdist Rops pbc None (mat_vec Rops M a) (mat_vec Rops M b) = mat_vec Rops M (pdist Rops pbc None a b).
+Proof. unfold pdist. destruct pbc; [apply pd_rot | apply mat_vec_sub]. Qed.
+
+Lemma vsum_map_ext {A B} (h : A -> B) (f : B -> V3) (f' : A -> V3) l :
+  (forall a, In a l -> f (h a) = f' a) -> vsum Rops f (map h l) = vsum Rops f' l.
+Proof.
+  intros H. rewrite !vsum_eq, !rsum_map.
+  apply v3_eq; apply rsum_ext; intros a Ha; rewrite (H a Ha); reflexivity.
+Qed.
+Lemma vsum_mat_vec {A} (M : M3) (f : A -> V3) l :
+  vsum Rops (fun a => mat_vec Rops M (f a)) l = mat_vec Rops M (vsum Rops f l).
+Proof.
+  rewrite !vsum_eq. dm M. unfold mat_vec, v3dot. rs.
+  apply v3_eq.
+  - rewrite <- rsum_lin3. apply rsum_ext. intros a _. destruct (f a) as [[x y] z]. reflexivity.
+  - rewrite <- rsum_lin3. apply rsum_ext. intros a _. destruct (f a) as [[x y] z]. reflexivity.
+  - rewrite <- rsum_lin3. apply rsum_ext. intros a _. destruct (f a) as [[x y] z]. reflexivity.
+Qed.
+
+Lemma dipole_shift t g (c : V3) : dipole Rops (shift_group t g) (v3add Rops c t) = dipole Rops g c.
+Proof.
+  unfold dipole, shift_group. apply vsum_map_ext. intros a _. cbn [a_charge a_pos shift_atom].
+  rewrite v3sub_shift. reflexivity.
+Qed.
+Lemma dipole_rot M g (c : V3) : dipole Rops (rot_group M g) (mat_vec Rops M c) = mat_vec Rops M (dipole Rops g c).
+Proof.
+  unfold dipole, rot_group. rewrite <- vsum_mat_vec. apply vsum_map_ext. intros a _. cbn [a_charge a_pos rot_atom].
+  rewrite mat_vec_sub, mat_vec_scale. reflexivity.
+Qed.
+
+Lemma centered_shift t g : g <> [] -> centered Rops (shift_group t g) = centered Rops g.
+Proof.
+  intros Hg. unfold centered. rewrite cog_shift by exact Hg. unfold shift_group. rewrite map_map.
+  apply map_ext. intros a. cbn [a_pos shift_atom]. apply v3sub_shift.
+Qed.
+Lemma centered_rot M g : centered Rops (rot_group M g) = map (mat_vec Rops M) (centered Rops g).
+Proof.
+  unfold centered. rewrite cog_rot. unfold rot_group. rewrite !map_map.
+  apply map_ext. intros a. cbn [a_pos rot_atom]. apply mat_vec_sub.
+Qed.
+
+(* ------------------------------------------------------------------ components: translations *)
+Section Translation.
+  Variables (pbc : bool) (cell : option V3) (t : V3).
+  Local Notation sh := (shift_group t).
+
+  Lemma tr_distance_vec g1 g2 : total_mass Rops g1 <> 0 -> total_mass Rops g2 <> 0 ->
+    cv_distance_vec Rops pbc cell (sh g1) (sh g2) = cv_distance_vec Rops pbc cell g1 g2.
+  Proof. intros H1 H2. unfold cv_distance_vec. rewrite !com_shift by assumption. apply pdist_shift. Qed.
+  Lemma tr_distance g1 g2 : total_mass Rops g1 <> 0 -> total_mass Rops g2 <> 0 ->
+    cv_distance Rops pbc cell (sh g1) (sh g2) = cv_distance Rops pbc cell g1 g2.
+  Proof. intros H1 H2. unfold cv_distance. rewrite tr_distance_vec by assumption. reflexivity. Qed.
+  Lemma tr_distance_dir g1 g2 : total_mass Rops g1 <> 0 -> total_mass Rops g2 <> 0 ->
+    cv_distance_dir Rops pbc cell (sh g1) (sh g2) = cv_distance_dir Rops pbc cell g1 g2.
+  Proof. intros H1 H2. unfold cv_distance_dir. rewrite tr_distance_vec by assumption. reflexivity. Qed.
+
+  Lemma tr_distance_z_fixed axis main ref : total_mass Rops main <> 0 -> total_mass Rops ref <> 0 ->
+    cv_distance_z_fixed Rops pbc cell axis (sh main) (sh ref) = cv_distance_z_fixed Rops pbc cell axis main ref.
+  Proof. intros H1 H2. unfold cv_distance_z_fixed. rewrite !com_shift by assumption. rewrite pdist_shift. reflexivity. Qed.
+  Lemma tr_distance_xy_fixed axis main ref : total_mass Rops main <> 0 -> total_mass Rops ref <> 0 ->
+    cv_distance_xy_fixed Rops pbc cell axis (sh main) (sh ref) = cv_distance_xy_fixed Rops pbc cell axis main ref.
+  Proof. intros H1 H2. unfold cv_distance_xy_fixed. rewrite !com_shift by assumption. rewrite pdist_shift. reflexivity. Qed.
+
+  Lemma half_sum_shift (a b : V3) :
+    v3scale Rops (nhalf Rops) (v3add Rops (v3add Rops a t) (v3add Rops b t)) =
+    v3add Rops (v3scale Rops (nhalf Rops) (v3add Rops a b)) t.
+  Proof. dv a; dv b; dv t. unfold v3scale, v3add, nhalf. v3ring; field. Qed.
+  Lemma tr_distance_z_ref2 main ref ref2 :
+    total_mass Rops main <> 0 -> total_mass Rops ref <> 0 -> total_mass Rops ref2 <> 0 ->
+    cv_distance_z_ref2 Rops pbc cell (sh main) (sh ref) (sh ref2) = cv_distance_z_ref2 Rops pbc cell main ref ref2.
+  Proof.
+    intros H1 H2 H3. unfold cv_distance_z_ref2. rewrite !com_shift by assumption.
+    cbv zeta. rewrite half_sum_shift, !pdist_shift. reflexivity.
+  Qed.
+  Lemma tr_distance_xy_ref2 main ref ref2 :
+    total_mass Rops main <> 0 -> total_mass Rops ref <> 0 -> total_mass Rops ref2 <> 0 ->
+    cv_distance_xy_ref2 Rops pbc cell (sh main) (sh ref) (sh ref2) = cv_distance_xy_ref2 Rops pbc cell main ref ref2.
+  Proof.
+    intros H1 H2 H3. unfold cv_distance_xy_ref2. rewrite !com_shift by assumption.
+    cbv zeta. rewrite !pdist_shift. reflexivity.
+  Qed.
+
+  Lemma tr_distance_inv n g1 g2 :
+    cv_distance_inv Rops pbc cell n (sh g1) (sh g2) = cv_distance_inv Rops pbc cell n g1 g2.
+  Proof.
+    unfold cv_distance_inv. rewrite !length_shift, !pair_sum_eq. unfold shift_group. rewrite rsum_map.
+    cbv zeta. f_equal. f_equal. apply rsum_ext. intros a1 _. rewrite rsum_map. apply rsum_ext. intros a2 _.
+    cbn [a_pos shift_atom]. rewrite pdist_shift. reflexivity.
+  Qed.
+
+  Lemma tr_dipole_magnitude g : total_mass Rops g <> 0 ->
+    cv_dipole_magnitude Rops (sh g) = cv_dipole_magnitude Rops g.
+  Proof. intros H. unfold cv_dipole_magnitude. rewrite com_shift by exact H. rewrite dipole_shift. reflexivity. Qed.
+
+  Lemma tr_inertia g : g <> [] -> cv_inertia Rops (sh g) = cv_inertia Rops g.
+  Proof. intros H. unfold cv_inertia. rewrite centered_shift by exact H. reflexivity. Qed.
+  Lemma tr_gyration g : g <> [] -> cv_gyration Rops (sh g) = cv_gyration Rops g.
+  Proof. intros H. unfold cv_gyration. rewrite tr_inertia by exact H. rewrite length_shift. reflexivity. Qed.
+  Lemma tr_inertia_z axis g : g <> [] -> cv_inertia_z Rops axis (sh g) = cv_inertia_z Rops axis g.
+  Proof. intros H. unfold cv_inertia_z. rewrite centered_shift by exact H. reflexivity. Qed.
+
+  Lemma tr_angle g1 g2 g3 : total_mass Rops g1 <> 0 -> total_mass Rops g2 <> 0 -> total_mass Rops g3 <> 0 ->
+    cv_angle Rops PI pbc cell (sh g1) (sh g2) (sh g3) = cv_angle Rops PI pbc cell g1 g2 g3.
+  Proof. intros H1 H2 H3. unfold cv_angle. rewrite !com_shift by assumption. cbv zeta. rewrite !pdist_shift. reflexivity. Qed.
+  Lemma tr_dipole_angle g1 g2 g3 : total_mass Rops g1 <> 0 -> total_mass Rops g2 <> 0 -> total_mass Rops g3 <> 0 ->
+    cv_dipole_angle Rops PI pbc cell (sh g1) (sh g2) (sh g3) = cv_dipole_angle Rops PI pbc cell g1 g2 g3.
+  Proof.
+    intros H1 H2 H3. unfold cv_dipole_angle. rewrite !com_shift by assumption.
+    rewrite dipole_shift, pdist_shift. reflexivity.
+  Qed.
+  Lemma tr_dihedral g1 g2 g3 g4 :
+    total_mass Rops g1 <> 0 -> total_mass Rops g2 <> 0 -> total_mass Rops g3 <> 0 -> total_mass Rops g4 <> 0 ->
+    cv_dihedral Rops PI pbc cell (sh g1) (sh g2) (sh g3) (sh g4) = cv_dihedral Rops PI pbc cell g1 g2 g3 g4.
+  Proof.
+    intros H1 H2 H3 H4. unfold cv_dihedral. rewrite !com_shift by assumption. cbv zeta. rewrite !pdist_shift. reflexivity.
+  Qed.
+
+  Lemma switching_shift r0 r0v en ed tol (p1 p2 : V3) :
+    switching Rops r0 r0v en ed tol cell (v3add Rops p1 t) (v3add Rops p2 t) = switching Rops r0 r0v en ed tol cell p1 p2.
+  Proof. unfold switching. rewrite pd_shift. reflexivity. Qed.
+  Lemma tr_coordnum r0 r0v en ed tol g1 g2 :
+    cv_coordnum Rops r0 r0v en ed tol cell (sh g1) (sh g2) = cv_coordnum Rops r0 r0v en ed tol cell g1 g2.
+  Proof.
+    unfold cv_coordnum. rewrite !pair_sum_eq. unfold shift_group. rewrite rsum_map.
+    apply rsum_ext. intros a1 _. rewrite rsum_map. apply rsum_ext. intros a2 _.
+    cbn [a_pos shift_atom]. apply switching_shift.
+  Qed.
+  Lemma tr_coordnum_center r0 r0v en ed tol g1 g2 : total_mass Rops g2 <> 0 ->
+    cv_coordnum_center Rops r0 r0v en ed tol cell (sh g1) (sh g2) = cv_coordnum_center Rops r0 r0v en ed tol cell g1 g2.
+  Proof.
+    intros H. unfold cv_coordnum_center. rewrite com_shift by exact H. cbv zeta. rewrite !lsum_eq.
+    unfold shift_group. rewrite rsum_map. apply rsum_ext. intros a1 _. cbn [a_pos shift_atom]. apply switching_shift.
+  Qed.
+  Lemma tr_selfcoordnum r0 en ed tol g :
+    cv_selfcoordnum Rops r0 en ed tol cell (sh g) = cv_selfcoordnum Rops r0 en ed tol cell g.
+  Proof.
+    unfold cv_selfcoordnum. rewrite !self_sum_from_eq. f_equal. unfold shift_group. rewrite self_rsum_map.
+    apply self_rsum_ext. intros a b. cbn [a_pos shift_atom]. apply switching_shift.
+  Qed.
+  Lemma tr_groupcoord r0 r0v en ed g1 g2 : total_mass Rops g1 <> 0 -> total_mass Rops g2 <> 0 ->
+    cv_groupcoord Rops r0 r0v en ed cell (sh g1) (sh g2) = cv_groupcoord Rops r0 r0v en ed cell g1 g2.
+  Proof. intros H1 H2. unfold cv_groupcoord. rewrite !com_shift by assumption. apply switching_shift. Qed.
+  Lemma tr_hbond r0 en ed a d :
+    cv_hbond Rops r0 en ed cell (shift_atom t a) (shift_atom t d) = cv_hbond Rops r0 en ed cell a d.
+  Proof. unfold cv_hbond. cbn [a_pos shift_atom]. apply switching_shift. Qed.
+End Translation.
+
+(* ------------------------------------------------------------------ components: proper rotations (no cell) *)
+Section Rotation.
+  Variables (pbc : bool) (M : M3).
+  Hypothesis HM : proper_rotation M.
+  Local Notation ro := (rot_group M).
+  Let Horth : orthogonal M := proj1 HM.
+  Let Hdet : det3 M = 1 := proj2 HM.
+
+  (* distanceVec and distanceDir rotate with the system *)
+  Lemma rot_distance_vec g1 g2 :
+    cv_distance_vec Rops pbc None (ro g1) (ro g2) = mat_vec Rops M (cv_distance_vec Rops pbc None g1 g2).
+  Proof. unfold cv_distance_vec. rewrite !com_rot. apply pdist_rot. Qed.
+  Lemma rot_distance g1 g2 : cv_distance Rops pbc None (ro g1) (ro g2) = cv_distance Rops pbc None g1 g2.
+  Proof. unfold cv_distance. rewrite rot_distance_vec. apply norm_rot. exact Horth. Qed.
+  Lemma rot_distance_dir g1 g2 : v3norm2 Rops (cv_distance_vec Rops pbc None g1 g2) <> 0 ->
+    cv_distance_dir Rops pbc None (ro g1) (ro g2) = mat_vec Rops M (cv_distance_dir Rops pbc None g1 g2).
+  Proof. intros H. unfold cv_distance_dir. rewrite rot_distance_vec. apply v3unit_rot; assumption. Qed.
+
+  Lemma rot_distance_z_ref2 main ref ref2 : v3norm2 Rops (pdist Rops pbc None (com Rops ref) (com Rops ref2)) <> 0 ->
+    cv_distance_z_ref2 Rops pbc None (ro main) (ro ref) (ro ref2) = cv_distance_z_ref2 Rops pbc None main ref ref2.
+  Proof.
+    intros H. unfold cv_distance_z_ref2. rewrite !com_rot. cbv zeta.
+    rewrite mat_vec_add, <- mat_vec_scale, !pdist_rot, v3unit_rot by assumption.
+    apply dot_rot. exact Horth.
+  Qed.
+  Lemma ortho_norm_rot (ax d : V3) : ortho_norm Rops (mat_vec Rops M ax) (mat_vec Rops M d) = ortho_norm Rops ax d.
+  Proof.
+    unfold ortho_norm. rewrite dot_rot by exact Horth. rewrite <- mat_vec_scale, mat_vec_sub. apply norm_rot. exact Horth.
+  Qed.
+  Lemma rot_distance_xy_ref2 main ref ref2 : v3norm2 Rops (pdist Rops pbc None (com Rops ref) (com Rops ref2)) <> 0 ->
+    cv_distance_xy_ref2 Rops pbc None (ro main) (ro ref) (ro ref2) = cv_distance_xy_ref2 Rops pbc None main ref ref2.
+  Proof.
+    intros H. unfold cv_distance_xy_ref2. rewrite !com_rot. cbv zeta.
+    rewrite !pdist_rot, v3unit_rot by assumption. apply ortho_norm_rot.
+  Qed.
+
+  Lemma rot_distance_inv n g1 g2 : cv_distance_inv Rops pbc None n (ro g1) (ro g2) = cv_distance_inv Rops pbc None n g1 g2.
+  Proof.
+    unfold cv_distance_inv. rewrite !length_rot, !pair_sum_eq. unfold rot_group. rewrite rsum_map.
+    cbv zeta. f_equal. f_equal. apply rsum_ext. intros a1 _. rewrite rsum_map. apply rsum_ext. intros a2 _.
+    cbn [a_pos rot_atom]. rewrite pdist_rot, norm2_rot by exact Horth. reflexivity.
+  Qed.
+
+  Lemma rot_dipole_magnitude g : cv_dipole_magnitude Rops (ro g) = cv_dipole_magnitude Rops g.
+  Proof. unfold cv_dipole_magnitude. rewrite com_rot, dipole_rot. apply norm_rot. exact Horth. Qed.
+
+  Lemma rot_inertia g : cv_inertia Rops (ro g) = cv_inertia Rops g.
+  Proof.
+    unfold cv_inertia. rewrite centered_rot, !lsum_eq, rsum_map. apply rsum_ext. intros p _. apply norm2_rot. exact Horth.
+  Qed.
+  Lemma rot_gyration g : cv_gyration Rops (ro g) = cv_gyration Rops g.
+  Proof. unfold cv_gyration. rewrite rot_inertia, length_rot. reflexivity. Qed.
+
+  Lemma angle_of_rot (u v : V3) : angle_of Rops PI (mat_vec Rops M u) (mat_vec Rops M v) = angle_of Rops PI u v.
+  Proof. unfold angle_of. rewrite dot_rot, !norm_rot by exact Horth. reflexivity. Qed.
+  Lemma rot_angle g1 g2 g3 : cv_angle Rops PI pbc None (ro g1) (ro g2) (ro g3) = cv_angle Rops PI pbc None g1 g2 g3.
+  Proof. unfold cv_angle. rewrite !com_rot. cbv zeta. rewrite !pdist_rot. apply angle_of_rot. Qed.
+  Lemma rot_dipole_angle g1 g2 g3 :
+    cv_dipole_angle Rops PI pbc None (ro g1) (ro g2) (ro g3) = cv_dipole_angle Rops PI pbc None g1 g2 g3.
+  Proof. unfold cv_dipole_angle. rewrite !com_rot, dipole_rot, pdist_rot. apply angle_of_rot. Qed.
+
+  Lemma dihedral_of_rot (a b c : V3) :
+    dihedral_of Rops PI (mat_vec Rops M a) (mat_vec Rops M b) (mat_vec Rops M c) = dihedral_of Rops PI a b c.
+  Proof.
+    unfold dihedral_of. cbv zeta. rewrite !dot_cross_cross, triple_rot, Hdet, norm_rot, !dot_rot by exact Horth.
+    rewrite Rmult_1_l. reflexivity.
+  Qed.
+  Lemma rot_dihedral g1 g2 g3 g4 :
+    cv_dihedral Rops PI pbc None (ro g1) (ro g2) (ro g3) (ro g4) = cv_dihedral Rops PI pbc None g1 g2 g3 g4.
+  Proof. unfold cv_dihedral. rewrite !com_rot. cbv zeta. rewrite !pdist_rot. apply dihedral_of_rot. Qed.
+
+  (* isotropic cut-off only: cutoff3 scales the axes differently and is not rotation invariant *)
+  Lemma switching_rot r0 en ed tol (p1 p2 : V3) :
+    switching Rops r0 None en ed tol None (mat_vec Rops M p1) (mat_vec Rops M p2) = switching Rops r0 None en ed tol None p1 p2.
+  Proof.
+    unfold switching. rewrite pd_rot.
+    set (d := position_distance Rops None p1 p2).
+    assert (H : forall v : V3, (let '(dx, dy, dz) := v in v3norm2 Rops (ndiv Rops dx r0, ndiv Rops dy r0, ndiv Rops dz r0)) =
+                               v3norm2 Rops (v3div Rops v r0)).
+    { intros [[x y] z]. reflexivity. }
+    assert (E : v3norm2 Rops (v3div Rops (mat_vec Rops M d) r0) = v3norm2 Rops (v3div Rops d r0)).
+    { rewrite !v3div_scale, <- mat_vec_scale. apply norm2_rot. exact Horth. }
+    destruct (mat_vec Rops M d) as [[x y] z] eqn:Emd. destruct d as [[x' y'] z'] eqn:Ed.
+    unfold v3div in E. rewrite E. reflexivity.
+  Qed.
+  Lemma rot_coordnum r0 en ed tol g1 g2 :
+    cv_coordnum Rops r0 None en ed tol None (ro g1) (ro g2) = cv_coordnum Rops r0 None en ed tol None g1 g2.
+  Proof.
+    unfold cv_coordnum. rewrite !pair_sum_eq. unfold rot_group. rewrite rsum_map.
+    apply rsum_ext. intros a1 _. rewrite rsum_map. apply rsum_ext. intros a2 _.
+    cbn [a_pos rot_atom]. apply switching_rot.
+  Qed.
+  Lemma rot_coordnum_center r0 en ed tol g1 g2 :
+    cv_coordnum_center Rops r0 None en ed tol None (ro g1) (ro g2) = cv_coordnum_center Rops r0 None en ed tol None g1 g2.
+  Proof.
+    unfold cv_coordnum_center. rewrite com_rot. cbv zeta. rewrite !lsum_eq.
+    unfold rot_group. rewrite rsum_map. apply rsum_ext. intros a1 _. cbn [a_pos rot_atom]. apply switching_rot.
+  Qed.
+  Lemma rot_selfcoordnum r0 en ed tol g :
+    cv_selfcoordnum Rops r0 en ed tol None (ro g) = cv_selfcoordnum Rops r0 en ed tol None g.
+  Proof.
+    unfold cv_selfcoordnum. rewrite !self_sum_from_eq. f_equal. unfold rot_group. rewrite self_rsum_map.
+    apply self_rsum_ext. intros a b. cbn [a_pos rot_atom]. apply switching_rot.
+  Qed.
+  Lemma rot_groupcoord r0 en ed g1 g2 :
+    cv_groupcoord Rops r0 None en ed None (ro g1) (ro g2) = cv_groupcoord Rops r0 None en ed None g1 g2.
+  Proof. unfold cv_groupcoord. rewrite !com_rot. apply switching_rot. Qed.
+  Lemma rot_hbond r0 en ed a d :
+    cv_hbond Rops r0 en ed None (rot_atom M a) (rot_atom M d) = cv_hbond Rops r0 en ed None a d.
+  Proof. unfold cv_hbond. cbn [a_pos rot_atom]. apply switching_rot. Qed.
+End Rotation.
+
+(* ------------------------------------------------------------------ permutations of a group's atom list *)
+Lemma total_mass_perm g g' : Permutation g g' -> total_mass Rops g = total_mass Rops g'.
+Proof. intros H. rewrite !total_mass_R. apply rsum_perm; exact H. Qed.
+Lemma total_charge_perm g g' : Permutation g g' -> total_charge Rops g = total_charge Rops g'.
+Proof. intros H. rewrite !total_charge_R. apply rsum_perm; exact H. Qed.
+Lemma com_perm g g' : Permutation g g' -> com Rops g = com Rops g'.
+Proof.
+  intros H. rewrite !com_R, (total_mass_perm g g' H).
+  rewrite (rsum_perm _ g g' H), (rsum_perm (fun a => a_mass a * py a) g g' H), (rsum_perm (fun a => a_mass a * pz a) g g' H).
+  reflexivity.
+Qed.
+Lemma cog_perm g g' : Permutation g g' -> cog Rops g = cog Rops g'.
+Proof.
+  intros H. rewrite !cog_R, (Permutation_length H).
+  rewrite (rsum_perm px g g' H), (rsum_perm py g g' H), (rsum_perm pz g g' H). reflexivity.
+Qed.
+Lemma dipole_perm g g' c : Permutation g g' -> dipole Rops g c = dipole Rops g' c.
+Proof.
+  intros H. unfold dipole. rewrite !vsum_eq.
+  apply v3_eq; apply rsum_perm; exact H.
+Qed.
+Lemma centered_perm g g' : Permutation g g' -> Permutation (centered Rops g) (centered Rops g').
+Proof. intros H. unfold centered. rewrite (cog_perm g g' H). apply Permutation_map. exact H. Qed.
+Lemma inertia_perm g g' : Permutation g g' -> cv_inertia Rops g = cv_inertia Rops g'.
+Proof. intros H. unfold cv_inertia. rewrite !lsum_eq. apply rsum_perm, centered_perm, H. Qed.
+Lemma gyration_perm g g' : Permutation g g' -> cv_gyration Rops g = cv_gyration Rops g'.
+Proof. intros H. unfold cv_gyration. rewrite (inertia_perm g g' H), (Permutation_length H). reflexivity. Qed.
+Lemma inertia_z_perm ax g g' : Permutation g g' -> cv_inertia_z Rops ax g = cv_inertia_z Rops ax g'.
+Proof. intros H. unfold cv_inertia_z. cbv zeta. rewrite !lsum_eq. apply rsum_perm, centered_perm, H. Qed.
+Lemma pair_rsum_perm {A B} (f : A -> B -> R) l1 l1' l2 l2' : Permutation l1 l1' -> Permutation l2 l2' ->
+  rsum (fun a => rsum (f a) l2) l1 = rsum (fun a => rsum (f a) l2') l1'.
+Proof.
+  intros H1 H2. rewrite (rsum_perm _ l1 l1' H1). apply rsum_ext. intros a _. apply rsum_perm. exact H2.
+Qed.
+Lemma coordnum_perm r0 r0v en ed tol cell g1 g1' g2 g2' : Permutation g1 g1' -> Permutation g2 g2' ->
+  cv_coordnum Rops r0 r0v en ed tol cell g1 g2 = cv_coordnum Rops r0 r0v en ed tol cell g1' g2'.
+Proof. intros H1 H2. unfold cv_coordnum. rewrite !pair_sum_eq. apply pair_rsum_perm; assumption. Qed.
+Lemma distance_inv_perm pbc cell n g1 g1' g2 g2' : Permutation g1 g1' -> Permutation g2 g2' ->
+  cv_distance_inv Rops pbc cell n g1 g2 = cv_distance_inv Rops pbc cell n g1' g2'.
+Proof.
+  intros H1 H2. unfold cv_distance_inv. cbv zeta. rewrite !pair_sum_eq, (Permutation_length H1), (Permutation_length H2).
+  f_equal. f_equal. apply pair_rsum_perm; assumption.
+Qed.
+
+(* the switching function is symmetric in its two positions (needed for the i<j sum of selfCoordNum) *)
+Definition cell_ok (cell : option V3) : Prop :=
+  match cell with None => True | Some (lx, ly, lz) => 0 < lx /\ 0 < ly /\ 0 < lz end.
+Lemma min_image1_pdiff L d : min_image1 Rops L d = pdiff Rops L d.
+Proof. reflexivity. Qed.
+Lemma pd_swap_sq cell (p1 p2 : V3) : cell_ok cell ->
+  let '(x, y, z) := position_distance Rops cell p1 p2 in
+  let '(x', y', z') := position_distance Rops cell p2 p1 in
+  x' * x' = x * x /\ y' * y' = y * y /\ z' * z' = z * z.
+Proof.
+  intros Hc. unfold position_distance. dv p1; dv p2. unfold v3sub. rs.
+  destruct cell as [[[lx ly] lz]|].
+  - destruct Hc as (Hx & Hy & Hz). rewrite !min_image1_pdiff.
+    replace (p1x - p2x) with (- (p2x - p1x)) by ring. replace (p1y - p2y) with (- (p2y - p1y)) by ring.
+    replace (p1z - p2z) with (- (p2z - p1z)) by ring.
+    repeat split; apply pdiff_neg_sq; assumption.
+  - repeat split; ring.
+Qed.
+Lemma sq_div (x y a : R) : x * x = y * y -> (x / a) * (x / a) = (y / a) * (y / a).
+Proof. intros H. unfold Rdiv. replace (x * / a * (x * / a)) with ((x * x) * (/ a * / a)) by ring. rewrite H. ring. Qed.
+Definition sw_l2 (r0 : R) (r0v : option V3) (d : V3) : R :=
+  let '(dx, dy, dz) := d in
+  v3norm2 Rops (match r0v with
+                | Some (a, b, c) => (dx / a, dy / b, dz / c)
+                | None => (dx / r0, dy / r0, dz / r0)
+                end).
+Definition sw_rest (en ed : Z) (tol l2 : R) : R :=
+  let xn := ipow Rops l2 (Z.quot en 2) in
+  let xd := ipow Rops l2 (Z.quot ed 2) in
+  let func := ((1 - xn) / (1 - xd) - tol) / (1 - tol) in
+  if Rltb func 0 then 0 else func.
+Lemma switching_unfold r0 r0v en ed tol cell (p1 p2 : V3) :
+  switching Rops r0 r0v en ed tol cell p1 p2 = sw_rest en ed tol (sw_l2 r0 r0v (position_distance Rops cell p1 p2)).
+Proof. unfold switching, sw_l2, sw_rest. destruct (position_distance Rops cell p1 p2) as [[x y] z]. reflexivity. Qed.
+Lemma switching_sym r0 r0v en ed tol cell (p1 p2 : V3) : cell_ok cell ->
+  switching Rops r0 r0v en ed tol cell p1 p2 = switching Rops r0 r0v en ed tol cell p2 p1.
+Proof.
+  intros Hc. pose proof (pd_swap_sq cell p1 p2 Hc) as H. rewrite !switching_unfold. f_equal.
+  destruct (position_distance Rops cell p1 p2) as [[x y] z]. destruct (position_distance Rops cell p2 p1) as [[x' y'] z'].
+  destruct H as (Hx & Hy & Hz). unfold sw_l2.
+  destruct r0v as [[[a b] c]|]; unfold v3norm2, v3dot; rs.
+  - rewrite (sq_div x' x a Hx), (sq_div y' y b Hy), (sq_div z' z c Hz). reflexivity.
+  - rewrite (sq_div x' x r0 Hx), (sq_div y' y r0 Hy), (sq_div z' z r0 Hz). reflexivity.
+Qed.
+Lemma selfcoordnum_perm r0 en ed tol cell g g' : cell_ok cell -> Permutation g g' ->
+  cv_selfcoordnum Rops r0 en ed tol cell g = cv_selfcoordnum Rops r0 en ed tol cell g'.
+Proof.
+  intros Hc H. unfold cv_selfcoordnum. rewrite !self_sum_from_eq. f_equal.
+  apply self_rsum_perm; [|exact H]. intros a b. apply switching_sym. exact Hc.
+Qed.
+
+(* ------------------------------------------------------------------ duplicate listing (any carrier) *)
+Section Dedup.
+  Context {T : Type}.
+  Notation atomT := (@atom T).
+  Lemma has_id_spec (g : list atomT) i : has_id g i = true <-> In i (map a_id g).
+  Proof.
+    unfold has_id. rewrite existsb_exists. split.
+    - intros [b [Hb He]]. apply Z.eqb_eq in He. subst i. apply in_map. exact Hb.
+    - intros H. apply in_map_iff in H. destruct H as [b [He Hb]]. exists b. split; [exact Hb|]. apply Z.eqb_eq. exact He.
+  Qed.
+  Lemma add_atom_listed (g : list atomT) a : In (a_id a) (map a_id g) -> add_atom g a = g.
+  Proof.
+    intros H. unfold add_atom. destruct (Z.ltb (a_id a) 0); [reflexivity|].
+    apply has_id_spec in H. rewrite H. reflexivity.
+  Qed.
+  Lemma add_atom_ids_incl (g : list atomT) a i : In i (map a_id g) -> In i (map a_id (add_atom g a)).
+  Proof.
+    intros H. unfold add_atom. destruct (Z.ltb (a_id a) 0); [exact H|]. destruct (has_id g (a_id a)); [exact H|].
+    rewrite map_app. apply in_or_app. left. exact H.
+  Qed.
+  Lemma add_atom_ids_new (g : list atomT) a : (0 <= a_id a)%Z -> In (a_id a) (map a_id (add_atom g a)).
+  Proof.
+    intros H. unfold add_atom. assert (Z.ltb (a_id a) 0 = false) as -> by (apply Z.ltb_ge; exact H).
+    destruct (has_id g (a_id a)) eqn:E.
+    - apply has_id_spec. exact E.
+    - rewrite map_app. apply in_or_app. right. left. reflexivity.
+  Qed.
+  Lemma fold_add_ids_acc (l : list atomT) acc i : In i (map a_id acc) -> In i (map a_id (fold_left add_atom l acc)).
+  Proof.
+    revert acc. induction l as [|a l IH]; intros acc H; cbn [fold_left]; [exact H|]. apply IH, add_atom_ids_incl, H.
+  Qed.
+  Lemma fold_add_ids_list (l : list atomT) acc i : In i (map a_id l) -> (0 <= i)%Z -> In i (map a_id (fold_left add_atom l acc)).
+  Proof.
+    revert acc. induction l as [|a l IH]; intros acc H Hi; cbn [fold_left map] in *; [contradiction|].
+    destruct H as [H|H].
+    - subst i. apply fold_add_ids_acc, add_atom_ids_new, Hi.
+    - apply IH; assumption.
+  Qed.
+  Lemma add_atom_negative (g : list atomT) a : (a_id a < 0)%Z -> add_atom g a = g.
+  Proof. intros H. unfold add_atom. apply Z.ltb_lt in H. rewrite H. reflexivity. Qed.
+
+  (* listing an atom a second time, anywhere after its first occurrence, changes nothing *)
+  Lemma mk_group_duplicate (l1 l2 : list atomT) a : In (a_id a) (map a_id l1) -> mk_group (l1 ++ a :: l2) = mk_group (l1 ++ l2).
+  Proof.
+    intros H. unfold mk_group. rewrite !fold_left_app. cbn [fold_left]. f_equal.
+    destruct (Z_lt_le_dec (a_id a) 0) as [Hn|Hp].
+    - apply add_atom_negative, Hn.
+    - apply add_atom_listed, fold_add_ids_list; assumption.
+  Qed.
+  Lemma add_atom_nodup (g : list atomT) a : NoDup (map a_id g) -> NoDup (map a_id (add_atom g a)).
+  Proof.
+    intros H. unfold add_atom. destruct (Z.ltb (a_id a) 0); [exact H|]. destruct (has_id g (a_id a)) eqn:E; [exact H|].
+    rewrite map_app. cbn [map]. apply (Permutation_NoDup (Permutation_cons_append _ _)).
+    constructor; [|exact H]. intros Hin. apply has_id_spec in Hin. congruence.
+  Qed.
+  Lemma mk_group_nodup (l : list atomT) : NoDup (map a_id (mk_group l)).
+  Proof.
+    unfold mk_group. assert (H : forall acc, NoDup (map a_id acc) -> NoDup (map a_id (fold_left add_atom l acc))).
+    { induction l as [|a l IH]; intros acc Hacc; cbn [fold_left]; [exact Hacc|]. apply IH, add_atom_nodup, Hacc. }
+    apply H. constructor.
+  Qed.
+  (* a listing without repetitions (and with valid ids) is taken as it is *)
+  Lemma mk_group_id (l : list atomT) : NoDup (map a_id l) -> (forall a, In a l -> (0 <= a_id a)%Z) -> mk_group l = l.
+  Proof.
+    unfold mk_group. intros Hnd Hpos.
+    assert (H : forall acc, NoDup (map a_id (acc ++ l)) -> fold_left add_atom l acc = acc ++ l).
+    { revert Hpos. clear Hnd. induction l as [|a l IH]; intros Hpos acc Hacc; cbn [fold_left].
+      - rewrite app_nil_r. reflexivity.
+      - assert (Ha : add_atom acc a = acc ++ [a]).
+        { unfold add_atom. assert (Z.ltb (a_id a) 0 = false) as -> by (apply Z.ltb_ge, Hpos; left; reflexivity).
+          destruct (has_id acc (a_id a)) eqn:E; [|reflexivity]. exfalso.
+          apply has_id_spec in E. rewrite map_app in Hacc. cbn [map] in Hacc.
+          apply NoDup_remove_2 in Hacc. apply Hacc. apply in_or_app. left. exact E. }
+        rewrite Ha, IH.
+        + rewrite <- app_assoc. reflexivity.
+        + intros b Hb. apply Hpos. right. exact Hb.
+        + rewrite <- app_assoc. exact Hacc. }
+    apply (H []). exact Hnd.
+  Qed.
+End Dedup.
